@@ -226,6 +226,8 @@ def verify_register_elaborate():
                z3.BoolVal(len(subs) == 1 and subs[0][2] is field and subs[0][1] == ("named" if named else "anonymous")))
         fv.add("no-other-statement", lab, qend.pc, z3.BoolVal(len(stm) == len(rd) + len(rs) + len(wd) + len(ws)))
     fv.add("cover:iterations-explored", "vacuity", [], z3.BoolVal(n_iter >= 8))
+    from .hdlrec import stores_nothing_on_the_component as _frame
+    _frame(fv, ex)
     fv.add_engine_obligations(ex)
     return fv
 
